@@ -100,47 +100,89 @@ Definition auth_revoke (cl : list client) (r : router) (c : cred) : option strin
   | Leg => match verify_client_leg cl c with Some k => Some (c_id k) | None => None end
   end.
 
+Definition leg_secret_auth (cl : list client) (i s : string) : option client :=
+  if nonempty i then
+    match find_client cl i with
+    | None => None
+    | Some k => match c_auth k with
+                | AMNone => Some k
+                | AMPkjwt => None
+                | _ => if sec_ok cl i s then Some k else None
+                end
+    end
+  else None.
+
+Lemma leg_secret_auth_id cl i s k : leg_secret_auth cl i s = Some k -> c_id k = i /\ find_client cl i = Some k.
+Proof.
+  unfold leg_secret_auth. destruct (nonempty i); [|discriminate].
+  destruct (find_client cl i) as [k'|] eqn:F; [|discriminate].
+  pose proof (find_client_id _ _ _ F) as E.
+  destruct (c_auth k'); try (destruct (sec_ok cl i s)); try discriminate; intros [= <-]; auto.
+Qed.
+
+(* the Legacy router's client is the one the credential names *)
+Lemma verify_client_leg_id cl c k : verify_client_leg cl c = Some k ->
+  c_id k = cred_id c /\ find_client cl (cred_id c) = Some k.
+Proof.
+  unfold verify_client_leg, cred_id.
+  destruct c as [|i s|i s|i s f|[x|] f]; cbn [cred_pair fst];
+    try (fold (leg_secret_auth cl "" "")); try (fold (leg_secret_auth cl i s));
+    try apply leg_secret_auth_id; try discriminate.
+  destruct (find_client cl x) as [k'|] eqn:F; [|discriminate].
+  pose proof (find_client_id _ _ _ F) as E.
+  destruct (c_auth k'); try discriminate. intros [= <-]. auto.
+Qed.
+
 Lemma auth_revoke_id cl r c caller : auth_revoke cl r c = Some caller -> caller = cred_id c.
 Proof.
-  unfold auth_revoke, cred_id. destruct r.
-  - destruct c as [|i s|i s]; cbn; try discriminate.
+  unfold auth_revoke. destruct r.
+  - unfold cred_id. destruct c as [|i s|i s|i s f|[x|] f]; cbn; try discriminate.
     + destruct (sec_ok cl i s); [|discriminate]. now intros [= <-].
     + destruct (nonempty i); [|discriminate]. destruct (find_client cl i) as [k|]; [|discriminate].
       destruct (nonempty s).
       * destruct (sec_ok cl i s); [|discriminate]. now intros [= <-].
       * destruct (c_auth k); try discriminate. now intros [= <-].
-  - unfold verify_client_leg.
-    assert (G : forall i s, (if nonempty i then match find_client cl i with
-                 | None => None
-                 | Some k => match c_auth k with AMNone => Some k | _ => if sec_ok cl i s then Some k else None end
-                 end else None) = None \/
-               exists k, (if nonempty i then match find_client cl i with
-                 | None => None
-                 | Some k => match c_auth k with AMNone => Some k | _ => if sec_ok cl i s then Some k else None end
-                 end else None) = Some k /\ c_id k = i).
-    { intros i s. destruct (nonempty i); [|now left].
-      destruct (find_client cl i) as [k|] eqn:F; [|now left]. apply find_client_id in F.
-      destruct (c_auth k); try (destruct (sec_ok cl i s); [|now left]); right; eauto. }
-    destruct c as [|i s|i s]; cbn [cred_pair fst].
-    + destruct (G "" "") as [->|(k & -> & E)]; [discriminate|]. now intros [= <-].
-    + destruct (G i s) as [->|(k & -> & E)]; [discriminate|]. now intros [= <-].
-    + destruct (G i s) as [->|(k & -> & E)]; [discriminate|]. now intros [= <-].
+    + destruct (sec_ok cl i s); [|discriminate]. now intros [= <-].
+    + now intros [= <-].
+  - destruct (verify_client_leg cl c) as [k|] eqn:V; [|discriminate].
+    apply verify_client_leg_id in V as [V _]. now intros [= <-].
+Qed.
+
+Lemma proper_secret cl i s :
+  match find_client cl i with
+  | None => false
+  | Some k => nonempty i && String.eqb (c_secret k) s
+              && match c_auth k with AMNone => true | AMPkjwt => false | _ => nonempty s end
+  end = true ->
+  sec_ok cl i s = true /\ leg_secret_auth cl i s <> None /\
+  (nonempty i = true /\ exists k, find_client cl i = Some k /\ (nonempty s = true \/ c_auth k = AMNone)).
+Proof.
+  unfold sec_ok, leg_secret_auth. destruct (find_client cl i) as [k|] eqn:F; [|discriminate]. intro H.
+  apply andb_true_iff in H as [H H3]. apply andb_true_iff in H as [H1 H2]. rewrite H1, H2.
+  split; [reflexivity|]. split.
+  - unfold sec_ok. rewrite F, H2. destruct (c_auth k); discriminate.
+  - split; [reflexivity|]. exists k. split; [reflexivity|]. destruct (c_auth k); auto; discriminate.
 Qed.
 
 Lemma proper_auth_revoke cl r c : proper cl c = true -> auth_revoke cl r c <> None.
 Proof.
-  unfold proper, auth_revoke. destruct c as [|i s|i s]; cbn; try discriminate.
-  - destruct (find_client cl i) as [k|] eqn:F; [|discriminate]. intro H.
-    apply andb_true_iff in H as [H H3]. apply andb_true_iff in H as [H1 H2].
-    destruct r.
-    + unfold sec_ok. rewrite F, H2. discriminate.
-    + rewrite H1. unfold sec_ok. rewrite F, H2. now destruct (c_auth k).
-  - destruct (find_client cl i) as [k|] eqn:F; [|discriminate]. intro H.
-    apply andb_true_iff in H as [H H3]. apply andb_true_iff in H as [H1 H2].
-    destruct r.
-    + rewrite H1. unfold sec_ok. rewrite F, H2.
-      destruct (nonempty s); [discriminate|]. cbn in H3. destruct (c_auth k); discriminate.
-    + rewrite H1. unfold sec_ok. rewrite F, H2. now destruct (c_auth k).
+  unfold proper, auth_revoke. destruct c as [|i s|i s|i s f|[x|] f]; try discriminate; intro P.
+  - destruct (proper_secret _ _ _ P) as (S & L & _). destruct r; cbn.
+    + rewrite S. discriminate.
+    + unfold verify_client_leg; cbn [cred_pair]. fold (leg_secret_auth cl i s).
+      destruct (leg_secret_auth cl i s); [discriminate|congruence].
+  - destruct (proper_secret _ _ _ P) as (S & L & N & k & F & A). destruct r; cbn.
+    + rewrite N, F. destruct (nonempty s) eqn:NS.
+      * rewrite S. discriminate.
+      * destruct A as [A|A]; [discriminate|]. rewrite A. discriminate.
+    + unfold verify_client_leg; cbn [cred_pair]. fold (leg_secret_auth cl i s).
+      destruct (leg_secret_auth cl i s); [discriminate|congruence].
+  - destruct (proper_secret _ _ _ P) as (S & L & _). destruct r; cbn.
+    + rewrite S. discriminate.
+    + unfold verify_client_leg; cbn [cred_pair]. fold (leg_secret_auth cl i s).
+      destruct (leg_secret_auth cl i s); [discriminate|congruence].
+  - destruct r; cbn; [discriminate|].
+    destruct (find_client cl x) as [k|]; [|discriminate]. destruct (c_auth k); discriminate.
 Qed.
 
 Definition auth_intro (cl : list client) (r : router) (c : cred) : option string :=
@@ -150,14 +192,33 @@ Lemma auth_intro_ok cl r c caller : auth_intro cl r c = Some caller ->
   authenticated cl c = true /\ caller = cred_id c.
 Proof.
   unfold auth_intro, cred_id. destruct r.
-  - destruct c as [|i s|i s]; cbn; try discriminate.
-    destruct (sec_ok cl i s) eqn:E; [|discriminate]. intros [= <-]. now split.
-  - unfold auth_intro_leg. destruct c as [|i s|i s]; cbn; try discriminate.
-    + destruct (nonempty i && nonempty s && sec_ok cl i s) eqn:E; [|discriminate].
-      apply andb_true_iff in E as [_ E]. intros [= <-]. now split.
-    + destruct (nonempty i && nonempty s && sec_ok cl i s) eqn:E; [|discriminate].
-      apply andb_true_iff in E as [_ E]. intros [= <-]. now split.
+  - destruct c as [|i s|i s|i s f|[x|] f]; cbn; try discriminate;
+      try (destruct (sec_ok cl i s) eqn:E; [|discriminate]); intros [= <-]; now split.
+  - unfold auth_intro_leg. destruct c as [|i s|i s|i s f|[x|] f]; cbn; try discriminate;
+      try (destruct (nonempty i && nonempty s && sec_ok cl i s) eqn:E; [|discriminate];
+           apply andb_true_iff in E as [_ E]); intros [= <-]; now split.
 Qed.
+
+Lemma client_err_leg_shape cl c : exists st, client_err_leg cl c = OErr st true.
+Proof.
+  unfold client_err_leg. destruct c as [|i s|i s|i s f|[x|] f]; eauto.
+  destruct (find_client cl x); eauto.
+Qed.
+
+Lemma revoke_err_prov_shape c : exists st, revoke_err_prov c = OErr st true.
+Proof. unfold revoke_err_prov. destruct c as [|i s|i s|i s f|[x|] f]; eauto. Qed.
+
+Definition revoke_err (cl : list client) (r : router) (c : cred) : out :=
+  match r with Prov => revoke_err_prov c | Leg => client_err_leg cl c end.
+
+Lemma revoke_err_shape cl r c : exists st, revoke_err cl r c = OErr st true.
+Proof. destruct r; [apply revoke_err_prov_shape|apply client_err_leg_shape]. Qed.
+
+Definition exch_err (cl : list client) (r : router) (c : cred) : out :=
+  match r with Prov => OErr S401 true | Leg => client_err_leg cl c end.
+
+Lemma exch_err_shape cl r c : exists st, exch_err cl r c = OErr st true.
+Proof. destruct r; [now exists S401|apply client_err_leg_shape]. Qed.
 
 (* ---------------------------------------------------------------- token exchange *)
 
@@ -190,7 +251,7 @@ Proof.
 Qed.
 
 Definition exch_auth (cl : list client) (r : router) (c : cred) : option client :=
-  match r with Prov => auth_exch_prov cl c | Leg => verify_client_leg cl c end.
+  match r with Prov => auth_exch_prov cl c | Leg => auth_exch_leg cl c end.
 
 (* what a successful exchange of the model implies *)
 Lemma exchange_ok_inv cl r s c subj styp actor req scopes aud s' i x rt lv sc sto :
@@ -206,7 +267,8 @@ Lemma exchange_ok_inv cl r s c subj styp actor req scopes aud s' i x rt lv sc st
 Proof.
   unfold exchange. destruct s as [g nx]. cbn [fst].
   destruct (match r, styp with Prov, TAbsent => true | _, _ => false end); [discriminate|].
-  fold (exch_auth cl r c). destruct (exch_auth cl r c) as [k|]; [|destruct r; discriminate].
+  fold (exch_auth cl r c) (exch_err cl r c). destruct (exch_auth cl r c) as [k|];
+    [|destruct (exch_err_shape cl r c) as [st ->]; discriminate].
   destruct (read_x g styp subj) as [[id ssub]|] eqn:RS; [|destruct req; discriminate].
   set (A := match actor with
             | None => Some (NoId, "", TAbsent)
@@ -235,7 +297,8 @@ Proof.
     destruct (string_in "offline_access" scopes); cbn; unfold expired_of; rewrite F; reflexivity.
   - reflexivity.
   - reflexivity.
-  - unfold revoke. fold (auth_revoke cl r c). destruct (auth_revoke cl r c) as [caller|]; [|destruct r; reflexivity].
+  - unfold revoke. fold (auth_revoke cl r c) (revoke_err cl r c). destruct (auth_revoke cl r c) as [caller|];
+      [|destruct (revoke_err_shape cl r c) as [st ->]; reflexivity].
     destruct (revoke_token g (revoke_target g t h) caller) as [g'|] eqn:E; [|reflexivity].
     cbn. rewrite revoke_target_denotes in E. now apply revoke_token_g_revoke in E.
   - unfold endsession.
@@ -259,12 +322,12 @@ Proof.
     + specialize (F "" cid (or_intror I) _ eq_refl).
       destruct (if nonempty cid then _ else _) as [g' x]. cbn in *. destruct x; cbn; congruence.
   - destruct (exchange cl r (g, nx) c subj styp actor req scopes aud) as [s' x] eqn:E. cbn [fst snd].
-    destruct x as [| | | | |i xt rt lv sc sto| |]; try (unfold exchange in E;
+    destruct x as [| | | | |i xt rt lv sc sto| |]; try (unfold exchange, client_err_leg in E;
       repeat match type of E with
              | context [match ?d with _ => _ end] => destruct d; try discriminate
              | context [if ?d then _ else _] => destruct d; try discriminate
              end; now injection E as <-).
-    unfold exchange in E.
+    unfold exchange, client_err_leg in E.
     repeat match type of E with
            | (let (_, _) := ?d in _) = _ => destruct d
            | context [match ?d with _ => _ end] => destruct d eqn:?; try discriminate
@@ -306,11 +369,11 @@ Proof.
       * now rewrite (revoke_token_refused_foreign _ _ _ E).
     + assert (P : proper cl c = false).
       { destruct (proper cl c) eqn:P; [|reflexivity]. exfalso. now apply (proper_auth_revoke cl r c P). }
-      destruct r; cbn; rewrite P; apply orb_true_r.
+      fold (revoke_err cl r c). destruct (revoke_err_shape cl r c) as [st ->]. cbn. rewrite P. apply orb_true_r.
   - destruct (endsession cl r g hint cid) as [g' x] eqn:E. cbn [snd].
     unfold endsession in E. leaves E; injection E as <- <-; reflexivity.
   - destruct (exchange cl r (g, nx) c subj styp actor req scopes aud) as [s' x] eqn:E. cbn [fst snd].
-    destruct x as [| | | | |i xt rt lv sc sto|st b|]; try (exfalso; unfold exchange in E; leaves E; discriminate).
+    destruct x as [| | | | |i xt rt lv sc sto|st b|]; try (exfalso; unfold exchange, client_err_leg in E; leaves E; discriminate).
     + apply exchange_ok_inv in E as (k & id & ssub & _ & RS & LS & _ & _ & AC). cbn [fst] in *.
       cbn in U. apply andb_true_iff in U as [U1 U2]. apply negb_true_iff in U1.
       cbn. rewrite (read_x_live_subj _ _ _ _ _ RS LS U1). cbn.
@@ -410,7 +473,8 @@ Lemma revoke_foreign_refused cl r g c t h g' x :
   revoke cl r g c t h = (g', x) -> foreign_to g (denotes t) (cred_id c) = true -> g' = g /\ x <> OOk.
 Proof.
   unfold revoke. fold (auth_revoke cl r c).
-  destruct (auth_revoke cl r c) as [caller|] eqn:A; [|destruct r; intros [= <- <-] _; (split; [reflexivity|discriminate])].
+  fold (revoke_err cl r c). destruct (auth_revoke cl r c) as [caller|] eqn:A;
+    [|destruct (revoke_err_shape cl r c) as [st ->]; intros [= <- <-] _; (split; [reflexivity|discriminate])].
   pose proof (auth_revoke_id _ _ _ _ A) as ->.
   destruct (revoke_token g (revoke_target g t h) (cred_id c)) as [g1|] eqn:E; rewrite revoke_target_denotes in E.
   - intros _ F. rewrite (revoke_token_not_foreign _ _ _ _ E) in F. discriminate.
@@ -493,7 +557,7 @@ Proof.
   - destruct (endsession cl r g hint cid) as [g' x] eqn:E. cbn [fst snd].
     unfold endsession in E. leaves E; injection E as <- _; try apply grows_refl; apply grows_filter.
   - destruct (exchange cl r (g, nx) c subj styp actor req scopes aud) as [s' x] eqn:E. cbn [fst].
-    unfold exchange in E. leaves E; injection E as <- _; try apply grows_refl; apply grows_add; lia.
+    unfold exchange, client_err_leg in E. leaves E; injection E as <- _; try apply grows_refl; apply grows_add; lia.
 Qed.
 
 Lemma state_after_grows cl : forall ops s, grows s (state_after cl s ops).
@@ -545,7 +609,7 @@ Proof.
   { subst s1. destruct s0 as [g nx]. cbn [step fst snd] in *.
     destruct (revoke cl r g c t h) as [g' x] eqn:E. cbn [fst snd] in *. subst x. split; [reflexivity|].
     unfold revoke in E. fold (auth_revoke cl r c) in E.
-    destruct (auth_revoke cl r c); [|destruct r; discriminate].
+    fold (revoke_err cl r c) in E. destruct (auth_revoke cl r c); [|destruct (revoke_err_shape cl r c) as [st EE]; rewrite EE in E; discriminate].
     destruct (revoke_token g (revoke_target g t h) s) as [g1|] eqn:R; [|discriminate].
     injection E as <-. apply revoke_token_g_revoke in R. rewrite revoke_target_denotes, D in R. subst g1.
     cbn. intros tr H. apply filter_In in H as [_ H]. cbn in H. now rewrite Nat.eqb_refl in H. }
